@@ -104,6 +104,9 @@ pub struct Scenario {
     /// C14: the handshake runs over the null TLS sessions and one side's transport-parameter block is rewritten
     #[serde(default)]
     pub tp_tamper: Option<crate::tamper::Tamper>,
+    /// the client retires the server's newest (spare) connection id at this time (0 = never)
+    #[serde(default)]
+    pub early_retire_at_us: u64,
 }
 
 #[derive(Clone, Debug, Serialize, Deserialize)]
